@@ -202,6 +202,7 @@ fn build_and_drain(
     calls: &[BCall],
     payload: &[u8],
 ) -> Result<(Vec<Vec<u8>>, Vec<Vec<u8>>, bool, Vec<u8>), ()> {
+    history_noise();
     std::panic::catch_unwind(std::panic::AssertUnwindSafe(|| {
         let mut b = http::Request::builder().method(r.method.clone()).uri("/");
         if let Some(v) = &r.ae {
